@@ -114,6 +114,23 @@ SYNTHETIC["syn-names"] = {
 }
 
 
+_web = {"os": "linux", "services": ["ssh"], "processes": ["tomcat"]}
+SYNTHETIC["syn-alias"] = {
+    # three hosts share ONE configuration mapping (what PyYAML yields for a YAML anchor `&web` and its aliases `*web`);
+    # two of them are sensitive with different values, the first one is not
+    "subnets": [1, 1, 1],
+    "topology": [[1, 1, 0, 0], [1, 1, 1, 1], [0, 1, 1, 0], [0, 1, 0, 1]],
+    "sensitive_hosts": {"(2, 0)": 100, "(3, 0)": 50},
+    "os": ["linux"], "services": ["ssh"], "processes": ["tomcat"],
+    "exploits": {"e_ssh": {"service": "ssh", "os": "linux", "prob": 0.8, "cost": 1, "access": "user"}},
+    "privilege_escalation": {"pe_tomcat": {"process": "tomcat", "os": "linux", "prob": 1.0, "cost": 1, "access": "root"}},
+    "service_scan_cost": 1, "os_scan_cost": 1, "subnet_scan_cost": 1, "process_scan_cost": 1,
+    "host_configurations": {"(1, 0)": _web, "(2, 0)": _web, "(3, 0)": _web},
+    "firewall": {"(0, 1)": ["ssh"], "(1, 0)": [], "(1, 2)": ["ssh"], "(2, 1)": [], "(1, 3)": ["ssh"], "(3, 1)": ["ssh"]},
+    "step_limit": 100,
+}
+
+
 def base_documents(tree, tier):
     import yaml
     docs = {}
@@ -154,14 +171,27 @@ def templatize(doc):
     return d
 
 
-def to_value(x, leaves):
+def to_value(x, leaves, memo=None):
+    """engine value of a parsed document; a mapping / sequence object that occurs several times in the document (YAML
+    anchor + aliases) stays ONE object"""
+    memo = {} if memo is None else memo
     if isinstance(x, Leaf):
-        leaves.append(x)
+        if not any(l is x for l in leaves):
+            leaves.append(x)
         return SymV(x.term(), "int" if x.kind == "int" else "real")
+    if isinstance(x, (dict, list)) and id(x) in memo:
+        return memo[id(x)]
     if isinstance(x, dict):
-        return PyDict({k: to_value(v, leaves) for k, v in x.items()}, fresh=False)
+        out = PyDict({}, fresh=False)
+        memo[id(x)] = out
+        for k, v in x.items():
+            out.d[k] = to_value(v, leaves, memo)
+        return out
     if isinstance(x, list):
-        return PyList([to_value(v, leaves) for v in x], fresh=False)
+        out = PyList([], fresh=False)
+        memo[id(x)] = out
+        out.items.extend(to_value(v, leaves, memo) for v in x)
+        return out
     return x
 
 
@@ -336,7 +366,7 @@ class LoaderLoad(Contract):
     callable_by_contract = False
     unbounded = False
     own_bounds = True
-    tags = {"C17": ("C17", "C02"), "C17.host-os-services-processes": ("C17", "C09"), "C18": ("C18",),
+    tags = {"C17": ("C17", "C02"), "C17.host-os-services-processes": ("C17", "C09", "C01"), "C18": ("C18",),
             "raises": ("C17",), "frame": ("C17", "C19")}
 
     def must_not_return(self, variant):
@@ -394,10 +424,29 @@ class LoaderLoad(Contract):
         from .dyn_cex import mev
 
         def build(m):
+            count = {}
+
+            def scan(x):
+                if isinstance(x, (dict, list)):
+                    count[id(x)] = count.get(id(x), 0) + 1
+                    if count[id(x)] == 1:
+                        for v in (x.values() if isinstance(x, dict) else x):
+                            scan(v)
+            scan(S.extra["tdoc"])
+            anchors = {}
+
             def conv(x):
                 if isinstance(x, Leaf):
                     v = mev(m, x.term())
                     return int(v) if x.kind == "int" else float(v)
+                if isinstance(x, dict) and count.get(id(x), 0) > 1:
+                    # one mapping used in several places (YAML anchor / alias): the replay rebuilds the sharing
+                    if id(x) in anchors:
+                        return {"__alias__": anchors[id(x)]}
+                    anchors[id(x)] = len(anchors) + 1
+                    out = {k: conv(v) for k, v in x.items()}
+                    out["__anchor__"] = anchors[id(x)]
+                    return out
                 if isinstance(x, dict):
                     return {k: conv(v) for k, v in x.items()}
                 if isinstance(x, list):
